@@ -1,8 +1,11 @@
 //! Single-point mutation operators on Sierra programs (DESIGN 3.12): the input space of C14,
 //! and the source of ill-formed-but-plausible programs for C15 / C02.
 #![allow(dead_code)]
-use cairo_lang_sierra::ids::VarId;
-use cairo_lang_sierra::program::{BranchTarget, GenericArg, Program, Statement, StatementIdx};
+use cairo_lang_sierra::ids::{ConcreteLibfuncId, ConcreteTypeId, GenericLibfuncId, GenericTypeId, UserTypeId, VarId};
+use cairo_lang_sierra::program::{
+    BranchInfo, BranchTarget, ConcreteLibfuncLongId, ConcreteTypeLongId, GenericArg, Invocation, LibfuncDeclaration,
+    Program, Statement, StatementIdx, TypeDeclaration,
+};
 use cvh::util::Rng;
 use serde_json::{Value, json};
 
@@ -29,6 +32,10 @@ pub enum Plan {
     SwapTypeDecls(usize),
     SwapLibfuncDecls(usize),
     StmtToReturn(usize),
+    /// At a merge point `at` (a jump target whose predecessor `at - 1` falls through into it): after
+    /// statement `at - 1` drop its result and re-introduce the same variable id as a zero-sized unit
+    /// value, so that the two merging paths disagree on the variable's type.
+    MergeRetype { at: usize, res: usize },
 }
 
 impl Plan {
@@ -198,6 +205,70 @@ pub fn apply(orig: &Program, plan: &Plan) -> Option<Program> {
             };
             p.statements[*i] = Statement::Return(vars);
         }
+        Plan::MergeRetype { at, res } => {
+            let at = *at;
+            if at == 0 || at >= n {
+                return None;
+            }
+            // statement at-1 must fall through into `at` with a result whose type we can name
+            let (var, ty) = match &p.statements[at - 1] {
+                Statement::Invocation(inv) if inv.branches.len() == 1 && inv.branches[0].target == BranchTarget::Fallthrough => {
+                    let var = inv.branches[0].results.get(*res)?.clone();
+                    let decl = p.libfunc_declarations.iter().find(|d| d.id == inv.libfunc_id)?;
+                    let g = decl.long_id.generic_id.0.as_str();
+                    if !matches!(g, "store_temp" | "rename" | "store_local" | "dup" | "felt252_const" | "const_as_immediate") {
+                        return None;
+                    }
+                    let ty = match decl.long_id.generic_args.first()? {
+                        GenericArg::Type(t) => t.clone(),
+                        _ => return None,
+                    };
+                    (var, ty)
+                }
+                _ => return None,
+            };
+            // `at` must also be reached by a jump from an earlier statement (a true merge)
+            let merged = p.statements[..at - 1].iter().any(|s| match s {
+                Statement::Invocation(inv) => inv.branches.iter().any(|b| b.target == BranchTarget::Statement(StatementIdx(at))),
+                _ => false,
+            });
+            if !merged {
+                return None;
+            }
+            let max_ty = p.type_declarations.iter().map(|t| t.id.id).max().unwrap_or(0);
+            let max_lf = p.libfunc_declarations.iter().map(|t| t.id.id).max().unwrap_or(0);
+            // Unit type
+            let unit_long = ConcreteTypeLongId {
+                generic_id: GenericTypeId::from_string("Struct"),
+                generic_args: vec![GenericArg::UserType(UserTypeId::from_string("Tuple"))],
+            };
+            let unit = match p.type_declarations.iter().find(|t| t.long_id == unit_long) {
+                Some(t) => t.id.clone(),
+                None => {
+                    let id = ConcreteTypeId::new(max_ty + 1);
+                    p.type_declarations.push(TypeDeclaration { id: id.clone(), long_id: unit_long, declared_type_info: None });
+                    id
+                }
+            };
+            let mut get_lf = |p: &mut Program, name: &str, arg: ConcreteTypeId, k: u64| -> ConcreteLibfuncId {
+                let long = ConcreteLibfuncLongId { generic_id: GenericLibfuncId::from_string(name), generic_args: vec![GenericArg::Type(arg)] };
+                match p.libfunc_declarations.iter().find(|d| d.long_id == long) {
+                    Some(d) => d.id.clone(),
+                    None => {
+                        let id = ConcreteLibfuncId::new(max_lf + k);
+                        p.libfunc_declarations.push(LibfuncDeclaration { id: id.clone(), long_id: long });
+                        id
+                    }
+                }
+            };
+            let drop_lf = get_lf(&mut p, "drop", ty, 1);
+            let unit_lf = get_lf(&mut p, "struct_construct", unit, 2);
+            let fall = |results: Vec<VarId>| vec![BranchInfo { target: BranchTarget::Fallthrough, results }];
+            p.statements.insert(at, Statement::Invocation(Invocation { libfunc_id: drop_lf, args: vec![var.clone()], branches: fall(vec![]) }));
+            p.statements.insert(at + 1, Statement::Invocation(Invocation { libfunc_id: unit_lf, args: vec![], branches: fall(vec![var]) }));
+            // jumps to the merge point (and everything behind it) move by two
+            shift_targets(&mut p, |t| if t >= at { t + 2 } else { t });
+        }
     }
     Some(p)
 }
@@ -230,6 +301,31 @@ pub fn plans(p: &Program, n: usize, rng: &mut Rng) -> Vec<Plan> {
     let mut out = vec![];
     if ns == 0 || nl == 0 || nt == 0 || nf == 0 {
         return out;
+    }
+    // merge points: jump targets whose predecessor falls through into them
+    let mut merges: Vec<usize> = vec![];
+    for s in p.statements.iter() {
+        if let Statement::Invocation(inv) = s {
+            for b in &inv.branches {
+                if let BranchTarget::Statement(StatementIdx(t)) = b.target {
+                    if t > 0 && t < ns {
+                        if let Statement::Invocation(prev) = &p.statements[t - 1] {
+                            if prev.branches.len() == 1 && prev.branches[0].target == BranchTarget::Fallthrough && !prev.branches[0].results.is_empty() {
+                                merges.push(t);
+                            }
+                        }
+                    }
+                }
+            }
+        }
+    }
+    merges.sort();
+    merges.dedup();
+    for (i, t) in merges.iter().enumerate() {
+        if out.len() >= n / 4 + 1 || i >= 8 {
+            break;
+        }
+        out.push(Plan::MergeRetype { at: *t, res: 0 });
     }
     let mut guard = 0;
     while out.len() < n && guard < n * 20 {
